@@ -218,13 +218,13 @@ siv80pq::siv80pq()
     ::memset(&m_state, 0, sizeof(m_state));
 }
 
-siv80pq::siv80pq(const unsigned char key[ASCON128_KEY_SIZE])
+siv80pq::siv80pq(const unsigned char key[ASCON80PQ_KEY_SIZE])
 {
     if (key)
-        ::memcpy(&m_state.key, key, ASCON128_KEY_SIZE);
+        ::memcpy(&m_state.key, key, ASCON80PQ_KEY_SIZE);
     else
-        ::memset(&m_state.key, 0, ASCON128_KEY_SIZE);
-    ::memset(&m_state.nonce, 0, ASCON128_NONCE_SIZE);
+        ::memset(&m_state.key, 0, ASCON80PQ_KEY_SIZE);
+    ::memset(&m_state.nonce, 0, ASCON80PQ_NONCE_SIZE);
 }
 
 siv80pq::~siv80pq()
